@@ -277,6 +277,37 @@ def _oracle(ctx, ex, obs, prelude=False):
             ctx.fail('%s:%s' % (what, sig or ex['call']['op']),
                      'bare: %r\nobserved: %r\nobservers: %r' %
                      (base, seen, obs))
+        # the bytes sent do not depend on the observers: same number of
+        # requests, same bodies, same header fields (in particular the
+        # Authorization header is the real one, not a masked copy)
+        if seen == base and len(ad0.requests) == len(ad1.requests):
+            for i, (r0, r1) in enumerate(zip(ad0.requests, ad1.requests)):
+                if r0.body != r1.body:
+                    ctx.fail('request-body-depends-on-observers',
+                             'request %d: %r vs %r' %
+                             (i, r0.body[:300], r1.body[:300]))
+                    break
+                h0 = {k.lower(): v for k, v in r0.headers.items()}
+                h1 = {k.lower(): v for k, v in r1.headers.items()}
+                if h0 != h1:
+                    diff = sorted(k for k in set(h0) | set(h1)
+                                  if h0.get(k) != h1.get(k))
+                    ctx.fail('request-headers-depend-on-observers:' +
+                             ','.join(diff)[:60],
+                             'request %d: %r' % (i, [
+                                 (k, str(h0.get(k))[:40], str(h1.get(k))[:40])
+                                 for k in diff]))
+                    break
+        elif seen == base:
+            ctx.fail('number-of-requests-depends-on-observers',
+                     '%d vs %d' % (len(ad0.requests), len(ad1.requests)))
+        for r in ad1.requests:
+            auth = {k.lower(): v for k, v in r.headers.items()}.get(
+                'authorization')
+            if auth is not None and auth != 'Basic ' + B64:
+                ctx.fail('authorization-header-sent-is-not-the-credentials',
+                         repr(auth)[:80])
+                break
         # raw request/reply
         # (only when the request of the operation itself went out: one that
         # requests refuses to send, e.g. for a line break in the CIMObject
